@@ -113,4 +113,297 @@ theorem localInv_iff (dist : α → α → D) (children : List (Node α D)) :
 
 end Setters
 
+
+/-! ### `Node::add` -/
+
+section Insert
+variable [LinearOrder D] [OfNat D 0]
+
+theorem argminGo_lt : ∀ (ds : List D) (i k : Nat) (best : D), k < i → argminGo ds i k best < i + ds.length
+  | [], i, k, best, h => by simpa [argminGo] using h
+  | d :: ds, i, k, best, h => by
+    unfold argminGo
+    split
+    · have := argminGo_lt ds (i + 1) i d (by omega)
+      simp only [List.length_cons]; omega
+    · have := argminGo_lt ds (i + 1) k best (by omega)
+      simp only [List.length_cons]; omega
+
+theorem argminFirst_lt (l : List D) (h : l ≠ []) : argminFirst l < l.length := by
+  cases l with
+  | nil => exact (h rfl).elim
+  | cons d ds =>
+    have := argminGo_lt ds 1 0 d (by omega)
+    simp only [argminFirst, List.length_cons]; omega
+
+/-- child `m` after the two loops of `Node::add` with closest child `k`. -/
+def newChild (ctx : Ctx α D U) (doSplit : Bool) (x : Elem α) (k m : Nat) (c : Node α D) (us : List U) : Node α D :=
+  if m = k then
+    ((Node.insert ctx doSplit x c us).1.setRanges (updAt c.ranges k (ctx.dist x.val c.pivot.val))).setRad
+      (c.rad.update (ctx.dist x.val c.pivot.val))
+  else c.setRanges (updAt c.ranges k (ctx.dist x.val c.pivot.val))
+
+theorem insertL_spec (ctx : Ctx α D U) (doSplit : Bool) (x : Elem α) (k : Nat) :
+    ∀ (l : List (Node α D)) (i : Nat) (us : List U),
+      (insertL ctx doSplit x k i l us).1.length = l.length ∧
+      ∀ (m : Nat) (c : Node α D), l[m]? = some c →
+        ∃ us', (insertL ctx doSplit x k i l us).1[m]? = some (newChild ctx doSplit x k (i + m) c us')
+  | [], i, us => by simp [insertL]
+  | c :: cs, i, us => by
+    unfold insertL
+    by_cases hik : i = k
+    · simp only [hik, if_true]
+      have ih := insertL_spec ctx doSplit x k cs (k + 1) (Node.insert ctx doSplit x c us).2.1
+      refine ⟨by simp [ih.1], ?_⟩
+      intro m c0 hm
+      cases m with
+      | zero =>
+        simp only [List.getElem?_cons_zero, Option.some.injEq] at hm
+        subst hm
+        exact ⟨us, by simp [newChild]⟩
+      | succ m =>
+        simp only [List.getElem?_cons_succ] at hm
+        obtain ⟨us', h⟩ := ih.2 m c0 hm
+        exact ⟨us', by simpa [show k + (m + 1) = k + 1 + m by omega] using h⟩
+    · simp only [hik, if_false]
+      have ih := insertL_spec ctx doSplit x k cs (i + 1) us
+      refine ⟨by simp [ih.1], ?_⟩
+      intro m c0 hm
+      cases m with
+      | zero =>
+        simp only [List.getElem?_cons_zero, Option.some.injEq] at hm
+        subst hm
+        exact ⟨us, by simp [newChild, hik]⟩
+      | succ m =>
+        simp only [List.getElem?_cons_succ] at hm
+        obtain ⟨us', h⟩ := ih.2 m c0 hm
+        exact ⟨us', by simpa [show i + (m + 1) = i + 1 + m by omega] using h⟩
+
+/-- what `Node::split` must establish for `Node::add` to preserve the invariant. -/
+def SplitSpec (ctx : Ctx α D U) (removed : List Nat) : Prop :=
+  ∀ (fuel : Nat) (n : Node α D) (us : List U), n.children = [] → isRemoved removed n.pivot = false →
+    (splitNode ctx fuel n us).1.inv ctx.dist removed = true ∧ (splitNode ctx fuel n us).1.pivot = n.pivot ∧
+      ∀ y ∈ restOf (splitNode ctx fuel n us).1, y ∈ restOf n
+
+theorem count_lt_of_mem : ∀ (l : List (Node α D)) (c : Node α D), c ∈ l → c.count ≤ countL l
+  | [], c, h => by simp at h
+  | c0 :: cs, c, h => by
+    simp only [countL]
+    rcases List.mem_cons.mp h with rfl | h
+    · omega
+    · have := count_lt_of_mem cs c h; omega
+
+theorem mem_elemsL {l : List (Node α D)} {y : Elem α} : y ∈ elemsL l ↔ ∃ c ∈ l, y ∈ c.elems := by
+  induction l with
+  | nil => simp [elemsL]
+  | cons c cs ih => simp [elemsL, ih]
+
+/-- **`Node::add` preserves `GnatInv`** (given `SplitSpec`): the new subtree satisfies the invariant,
+keeps its pivot, and stores nothing but the old copies and the new one. -/
+theorem Node.insert_spec (ctx : Ctx α D U) (removed : List Nat) (doSplit : Bool)
+    (hS : doSplit = true → SplitSpec ctx removed)
+    (x : Elem α) : ∀ (N : Nat) (t : Node α D), t.count ≤ N → t.inv ctx.dist removed = true → ∀ (us : List U),
+      (t.insert ctx doSplit x us).1.inv ctx.dist removed = true ∧
+      (t.insert ctx doSplit x us).1.pivot = t.pivot ∧
+      ∀ y ∈ restOf (t.insert ctx doSplit x us).1, y = x ∨ y ∈ restOf t := by
+  intro N
+  induction N with
+  | zero =>
+    intro t ht
+    have := Node.count_eq t
+    omega
+  | succ N ih =>
+    intro t ht hinv us
+    obtain ⟨p, deg, rad, rgs, data, ch⟩ := t
+    obtain ⟨hp, hloc, hch⟩ := Node.inv_parts hinv
+    cases ch with
+    | nil =>
+      have hleaf : ∀ y ∈ restOf (Node.mk p deg rad rgs (data ++ [x]) ([] : List (Node α D))),
+          y = x ∨ y ∈ restOf (Node.mk p deg rad rgs data ([] : List (Node α D))) := by
+        intro y hy
+        simp only [restOf, Node.data, Node.children, elemsL, List.append_nil, List.mem_append,
+          List.mem_singleton] at hy ⊢
+        rcases hy with hy | hy
+        · exact Or.inr hy
+        · exact Or.inl hy
+      have hinv' : (Node.mk p deg rad rgs (data ++ [x]) ([] : List (Node α D))).inv ctx.dist removed = true := by
+        rw [Node.inv_mk] at hinv ⊢
+        exact hinv
+      unfold Node.insert
+      split
+      · split
+        · rename_i hds
+          obtain ⟨h1, h2, h3⟩ := hS hds ((data ++ [x]).length + 1) (.mk p deg rad rgs (data ++ [x]) []) us rfl hp
+          exact ⟨h1, h2, fun y hy => hleaf y (h3 y hy)⟩
+        · exact ⟨hinv', rfl, hleaf⟩
+      · exact ⟨hinv', rfl, hleaf⟩
+    | cons c cs =>
+      unfold Node.insert
+      simp only []
+      generalize hk : argminFirst ((c :: cs).map (fun c => ctx.dist x.val c.pivot.val)) = k
+      have hklt : k < (c :: cs).length := by
+        have := argminFirst_lt ((c :: cs).map (fun c => ctx.dist x.val c.pivot.val)) (by simp)
+        rw [hk] at this
+        simpa using this
+      obtain ⟨hlen, hspec⟩ := insertL_spec ctx doSplit x k (c :: cs) 0 us
+      generalize (insertL ctx doSplit x k 0 (c :: cs) us).1 = L' at hlen hspec
+      have hlocP := (localInv_iff ctx.dist (c :: cs)).mp hloc
+      -- facts about every new child
+      have hnew : ∀ (m : Nat) (c' : Node α D), L'[m]? = some c' →
+          ∃ c0 us', (c :: cs)[m]? = some c0 ∧ c' = newChild ctx doSplit x k m c0 us' := by
+        intro m c' hm
+        have hmlt : m < (c :: cs).length := by
+          rw [← hlen]
+          by_contra hcon
+          rw [List.getElem?_eq_none (by omega)] at hm
+          cases hm
+        obtain ⟨us', h⟩ := hspec m _ (List.getElem?_eq_getElem hmlt)
+        rw [h] at hm
+        simp only [Nat.zero_add, Option.some.injEq] at hm
+        exact ⟨_, us', List.getElem?_eq_getElem hmlt, hm.symm⟩
+      have hIH : ∀ c0 ∈ c :: cs, ∀ us',
+          (c0.insert ctx doSplit x us').1.inv ctx.dist removed = true ∧
+          (c0.insert ctx doSplit x us').1.pivot = c0.pivot ∧
+          ∀ y ∈ restOf (c0.insert ctx doSplit x us').1, y = x ∨ y ∈ restOf c0 := by
+        intro c0 hc0 us'
+        apply ih c0 _ (hch c0 hc0)
+        have h1 := count_lt_of_mem (c :: cs) c0 hc0
+        have h2 := Node.count_eq (Node.mk p deg rad rgs data (c :: cs))
+        simp only [Node.children] at h2
+        omega
+      have hpiv : ∀ m c0 us', c0 ∈ c :: cs → (newChild ctx doSplit x k m c0 us').pivot = c0.pivot := by
+        intro m c0 us' hc0
+        unfold newChild
+        split
+        · simp [(hIH c0 hc0 us').2.1]
+        · simp
+      have hrest : ∀ m c0 us', c0 ∈ c :: cs → ∀ y ∈ restOf (newChild ctx doSplit x k m c0 us'),
+          (m = k ∧ y = x) ∨ y ∈ restOf c0 := by
+        intro m c0 us' hc0 y hy
+        unfold newChild at hy
+        split at hy
+        · rename_i hmk
+          rw [restOf_setRad, restOf_setRanges] at hy
+          rcases (hIH c0 hc0 us').2.2 y hy with h | h
+          · exact Or.inl ⟨hmk, h⟩
+          · exact Or.inr h
+        · rw [restOf_setRanges] at hy
+          exact Or.inr hy
+      have helems : ∀ m c0 us', c0 ∈ c :: cs → ∀ y ∈ (newChild ctx doSplit x k m c0 us').elems,
+          (m = k ∧ y = x) ∨ y ∈ c0.elems := by
+        intro m c0 us' hc0 y hy
+        rw [Node.elems_eq, hpiv m c0 us' hc0] at hy
+        rw [Node.elems_eq]
+        rcases List.mem_cons.mp hy with h | h
+        · exact Or.inr (by rw [h]; simp)
+        · rcases hrest m c0 us' hc0 y h with h | h
+          · exact Or.inl h
+          · exact Or.inr (List.mem_cons_of_mem _ h)
+      refine ⟨?_, rfl, ?_⟩
+      · rw [Node.inv_mk]
+        refine ⟨hp, ?_, ?_⟩
+        · rw [localInv_iff]
+          intro ci' hci'
+          obtain ⟨m, hm⟩ := List.mem_iff_getElem?.mp hci'
+          obtain ⟨c0, us', hc0, rfl⟩ := hnew m ci' hm
+          have hc0m : c0 ∈ c :: cs := List.mem_of_getElem? hc0
+          obtain ⟨hradOld, hrgOld⟩ := hlocP c0 hc0m
+          rw [hpiv m c0 us' hc0m]
+          constructor
+          · intro y hy
+            rcases hrest m c0 us' hc0m y hy with ⟨hmk, rfl⟩ | h
+            · simp only [newChild, hmk, if_true, Node.setRad_rad]
+              exact Range.has_update_self _ _
+            · unfold newChild
+              split
+              · simp only [Node.setRad_rad]
+                exact Range.has_update_of_has _ _ _ (hradOld y h)
+              · simp only [Node.setRanges_rad]
+                exact hradOld y h
+          · intro j cj' hj
+            obtain ⟨cj0, usj, hcj0, rfl⟩ := hnew j cj' hj
+            have hcj0m : cj0 ∈ c :: cs := List.mem_of_getElem? hcj0
+            obtain ⟨rg0, hrg0, hall0⟩ := hrgOld j cj0 hcj0
+            have hranges : (newChild ctx doSplit x k m c0 us').ranges =
+                updAt c0.ranges k (ctx.dist x.val c0.pivot.val) := by
+              unfold newChild
+              split <;> simp
+            rw [hranges, updAt_getElem?]
+            by_cases hjk : j = k
+            · rw [if_pos hjk, hrg0]
+              refine ⟨_, rfl, ?_⟩
+              intro y hy
+              rcases helems j cj0 usj hcj0m y hy with ⟨_, rfl⟩ | h
+              · exact Range.has_update_self _ _
+              · exact Range.has_update_of_has _ _ _ (hall0 y h)
+            · rw [if_neg hjk, hrg0]
+              refine ⟨_, rfl, ?_⟩
+              intro y hy
+              rcases helems j cj0 usj hcj0m y hy with ⟨h, _⟩ | h
+              · exact (hjk h).elim
+              · exact hall0 y h
+        · apply invL_of_mem
+          intro ci' hci'
+          obtain ⟨m, hm⟩ := List.mem_iff_getElem?.mp hci'
+          obtain ⟨c0, us', hc0, rfl⟩ := hnew m ci' hm
+          have hc0m : c0 ∈ c :: cs := List.mem_of_getElem? hc0
+          unfold newChild
+          split
+          · rw [Node.inv_setRad, Node.inv_setRanges]
+            exact (hIH c0 hc0m us').1
+          · rw [Node.inv_setRanges]
+            exact hch c0 hc0m
+      · intro y hy
+        simp only [restOf, Node.data, Node.children, List.mem_append] at hy ⊢
+        rcases hy with hy | hy
+        · exact Or.inr (Or.inl hy)
+        · obtain ⟨ci', hci', hyc⟩ := mem_elemsL.mp hy
+          obtain ⟨m, hm⟩ := List.mem_iff_getElem?.mp hci'
+          obtain ⟨c0, us', hc0, rfl⟩ := hnew m ci' hm
+          have hc0m : c0 ∈ c :: cs := List.mem_of_getElem? hc0
+          rcases helems m c0 us' hc0m y hyc with ⟨_, h⟩ | h
+          · exact Or.inl h
+          · exact Or.inr (Or.inr (mem_elemsL.mpr ⟨c0, hc0m, h⟩))
+
+end Insert
+
+
+/-! ### `remove`: marking a non-pivot copy -/
+
+section Mark
+variable [LE D] [DecidableLE D]
+
+mutual
+/-- the pivots of a subtree. -/
+def Node.pivots : Node α D → List (Elem α)
+  | .mk p _ _ _ _ ch => p :: pivotsL ch
+def pivotsL : List (Node α D) → List (Elem α)
+  | [] => []
+  | c :: cs => c.pivots ++ pivotsL cs
+end
+
+mutual
+/-- marking a stored copy whose id is no pivot's id keeps `GnatInv` (which bounds the distances to
+*all* stored copies, removed ones included, so only "no pivot is marked" is at stake). -/
+theorem Node.inv_mark (dist : α → α → D) (removed : List Nat) (i : Nat) :
+    ∀ (t : Node α D), t.inv dist removed = true → (∀ p ∈ t.pivots, p.id ≠ i) → t.inv dist (i :: removed) = true
+  | .mk p deg rad rgs data ch, h, hp => by
+    rw [Node.inv_mk] at h ⊢
+    refine ⟨?_, h.2.1, invL_mark dist removed i ch h.2.2 (fun q hq => hp q (by simp [Node.pivots, hq]))⟩
+    have h1 := hp p (by simp [Node.pivots])
+    have h2 := h.1
+    simp only [isRemoved, List.contains_cons, Bool.or_eq_false_iff, beq_eq_false_iff_ne, ne_eq] at h2 ⊢
+    exact ⟨h1, h2⟩
+theorem invL_mark (dist : α → α → D) (removed : List Nat) (i : Nat) :
+    ∀ (ch : List (Node α D)), invL dist removed ch = true → (∀ p ∈ pivotsL ch, p.id ≠ i) →
+      invL dist (i :: removed) ch = true
+  | [], _, _ => rfl
+  | c :: cs, h, hp => by
+    simp only [invL, Bool.and_eq_true] at h ⊢
+    exact ⟨Node.inv_mark dist removed i c h.1 (fun q hq => hp q (by simp [pivotsL, hq])),
+      invL_mark dist removed i cs h.2 (fun q hq => hp q (by simp [pivotsL, hq]))⟩
+end
+
+end Mark
+
 end OmplModel.NN
